@@ -378,10 +378,31 @@ def run(ctx):
             for n in ast.walk(g):
                 if isinstance(n, ast.AugAssign) and dotted(n.target) and dotted(n.target).startswith("self."):
                     appended.add(dotted(n.target).split(".", 1)[1])
+        if cname == "TestResult":
+            # run state also lives in plain attributes: what stop() and startTest() write
+            # (shouldStop, testsRun, ... -- through the MRO, unittest's source included)
+            for h in ("stop", "startTest"):
+                owner, f = classes.resolve_method(c, h)
+                seen_f = set()
+                while isinstance(f, FUNC_TYPES) and id(f) not in seen_f:
+                    seen_f.add(id(f))
+                    for n in ast.walk(f):
+                        tgt = None
+                        if isinstance(n, ast.Assign) and len(n.targets) == 1:
+                            tgt = n.targets[0]
+                        elif isinstance(n, ast.AugAssign):
+                            tgt = n.target
+                        ch = attr_chain(tgt) if tgt is not None else None
+                        if ch and ch[0] == "self" and len(ch) == 2 and not ch[1].startswith("_"):
+                            appended.add(ch[1])
+                    sup_calls = [x for x in walk_shallow(f, include_self=False) if isinstance(x, ast.Call) and attr_chain(x.func) and attr_chain(x.func)[0] == "super()" and attr_chain(x.func)[-1] == h]
+                    if not sup_calls:
+                        break
+                    owner, f = classes.resolve_method(c, h, after=owner)
         reset = reset_attrs(c)
         for a in sorted(appended):
             ctx.check("R-RUN-RESET", f"{cname}.startTestRun re-initialises self.{a}", c.own_method("startTestRun") or c.node, a in reset,
-                      f"outcomes accumulate in self.{a} but startTestRun does not reset it: the verdict of a second run includes the first run's outcomes",
+                      f"run state is kept in self.{a} (written by outcomes, stop() or startTest()) but startTestRun does not reset it: a second run on the same result object starts from the first run's state",
                       construct=f"{REAL}:{cname}.startTestRun::reset {a}")
     ctx.floor("R-RUN-RESET", 10)
     tr = classes.get(REAL, "TestResult")
@@ -392,12 +413,19 @@ def run(ctx):
     for opt in ("failfast", "tb_locals"):
         saves = [n.id for n in scfg.nodes if n.id in slive and n.kind == "stmt" and isinstance(n.ast, ast.Assign) and dotted(n.ast.value) == f"self.{opt}" and isinstance(n.ast.targets[0], ast.Name)]
         rest = [n.id for n in scfg.nodes if n.id in slive and n.kind == "stmt" and isinstance(n.ast, ast.Assign) and dotted(n.ast.targets[0]) == f"self.{opt}" and isinstance(n.ast.value, ast.Name)]
-        ok = bool(sup) and bool(saves) and bool(rest) and scfg.dominated_by(sup[0], set(saves)) and scfg.escape_path(scfg.after(sup[0]), set(rest), targets=[scfg.exit_return]) is None
-        if ok:
-            sv = scfg.nodes[saves[0]].ast.targets[0].id
-            ok = scfg.nodes[rest[0]].ast.value.id == sv
+        own_assigned = opt in instance_attrs_assigned(st)
+        chain_assigned = opt in (reset_attrs(tr) - instance_attrs_assigned(st)) or (bool(sup) and opt in reset_attrs(tr))
+        if not sup or not chain_assigned:
+            # nothing startTestRun calls re-initialises the option; its own assignments (if any) must write back a saved copy
+            ok = not own_assigned or (bool(saves) and bool(rest) and len(rest) == sum(1 for n in scfg.nodes if n.id in slive and n.kind == "stmt" and isinstance(n.ast, ast.Assign) and dotted(n.ast.targets[0]) == f"self.{opt}")
+                                      and all(scfg.nodes[r].ast.value.id == scfg.nodes[saves[0]].ast.targets[0].id and scfg.dominated_by(r, set(saves)) for r in rest))
+        else:
+            ok = bool(sup) and bool(saves) and bool(rest) and scfg.dominated_by(sup[0], set(saves)) and scfg.escape_path(scfg.after(sup[0]), set(rest), targets=[scfg.exit_return]) is None
+            if ok:
+                sv = scfg.nodes[saves[0]].ast.targets[0].id
+                ok = scfg.nodes[rest[0]].ast.value.id == sv
         ctx.check("R-RUN-RESET", f"TestResult.startTestRun preserves {opt}", st, ok,
-                  f"{opt} is not saved before and restored after the base-class re-initialisation", construct=f"{REAL}:TestResult.startTestRun::keep {opt}")
+                  f"startTestRun re-initialises {opt} (through the base-class constructor) without saving it before and restoring it afterwards", construct=f"{REAL}:TestResult.startTestRun::keep {opt}")
     init = own_method(ctx, REAL, "TestResult", "__init__")
     ok = bool(calls_named(init, "TestResult.startTestRun")) or bool(calls_named(init, "self.startTestRun"))
     ctx.check("R-RUN-RESET", "TestResult.__init__ goes through startTestRun", init, ok, "constructor no longer initialises through startTestRun", construct=f"{REAL}:TestResult.__init__::start")
